@@ -128,6 +128,9 @@ class TlsExtensionBase(ParsableBase):
 
         if parser.unparsed_length < parser['extension_length']:
             raise NotEnoughData(parser['extension_length'] + parser.parsed_length)
+        if parser.unparsed_length > parser['extension_length']:
+            # an extension is parsed from its own bytes only, whatever follows it in the extension block
+            return cls._check_header(parsable[:parser.parsed_length + parser['extension_length']])
 
         return parser
 
